@@ -1,7 +1,7 @@
 (* C31: the decoder model (with the RFC Huffman decoder) on a whole block refines rfc_decode; closure through prop_C31. *)
 From Coq Require Import List ZArith Bool Lia ZifyBool ZifyNat.
 From Bfe Require Import lib.Val lib.Bytes gen.HpackTables model.Huffman model.Hpack run.RunC31
-  proofs.HuffmanProofs proofs.HpackProofs proofs.HpackRfcProofs.
+  proofs.HuffmanProofs proofs.HpackProofs proofs.HpackRfcProofs proofs.HpackIncrProofs.
 Import ListNotations.
 Open Scope Z_scope.
 
@@ -18,11 +18,11 @@ Theorem decoder_refines_rfc_oneshot mx p : 0 <= mx -> wf_bytes p = true ->
 Proof.
   intros Hmx Hw. cbn [dec_run]. unfold dec_write, new_decoder. destruct p as [|b p0].
   - cbn. split; [discriminate|]. split; [reflexivity|split; [reflexivity|apply trel_init; exact Hmx]].
-  - cbn [dsave ddt app]. unfold rfc_decode.
-    pose proof (parse_loop_rfc (S (length (b :: p0))) (empty_dt mx mx) (mkR [] mx) (b :: p0) [] Hw (trel_init mx Hmx)) as Hl.
+  - cbn [dsave ddt dfirst app]. unfold rfc_decode.
+    pose proof (parse_loop_rfc (S (length (b :: p0))) true (empty_dt mx mx) (mkR [] mx) (b :: p0) [] Hw (trel_init mx Hmx)) as Hl.
     change (dallowed (empty_dt mx mx)) with mx in Hl.
-    destruct (parse_loop huff_decode_spec (S (length (b :: p0))) (empty_dt mx mx) (b :: p0) []) as [[dd acc'] st].
-    destruct (rfc_block (S (length (b :: p0))) mx (mkR [] mx) (b :: p0)) as [[t' fs]|]; cbn [loop_rel] in Hl.
+    destruct (parse_loop huff_decode_spec (S (length (b :: p0))) true (empty_dt mx mx) (b :: p0) []) as [[dd acc'] st].
+    destruct (rfc_block (S (length (b :: p0))) mx true (mkR [] mx) (b :: p0)) as [[t' fs]|]; cbn [loop_rel] in Hl.
     + destruct Hl as [Hnp [Hst [Hsv [Hacc Hrel]]]]. subst st. change (0 =? 0) with true. cbv iota.
       cbn [dec_run]. unfold dec_close. rewrite Hsv. split; [discriminate|].
       split; [reflexivity|split; [|exact Hrel]]. rewrite Hacc, app_nil_r, rev_involutive. reflexivity.
@@ -61,3 +61,41 @@ Proof.
     unfold vnat. rewrite !Z.eqb_refl. reflexivity.
   - apply negb_true_iff. lia.
 Qed.
+
+Lemma wf_bytes_concat chunks : forallb wf_bytes chunks = true -> wf_bytes (concat chunks) = true.
+Proof.
+  induction chunks as [|c r IH]; [reflexivity|]. cbn [forallb concat]. intros H.
+  apply andb_true_iff in H. destruct H as [H1 H2]. unfold wf_bytes in *. rewrite forallb_app, H1. apply IH. exact H2.
+Qed.
+
+(* any chunking: refinement of the reference on the concatenation *)
+Theorem decoder_refines_rfc mx chunks : 0 <= mx -> forallb wf_bytes chunks = true ->
+  let '(d, fs, st) := dec_run huff_decode_spec (new_decoder mx) chunks [] in
+  st <> ST_PANIC /\
+  match rfc_decode mx (concat chunks) with
+  | Some (t, want) => st = 0 /\ fs = want /\ trel (ddt d) t
+  | None => st <> 0
+  end.
+Proof.
+  intros Hmx Hw. rewrite dec_run_concat. apply decoder_refines_rfc_oneshot; [exact Hmx|apply wf_bytes_concat; exact Hw].
+Qed.
+
+Theorem C31_central_lemma i : wf_C31 i = true -> kf_C31 i = 0 -> prop_C31 i (run_C31 i) = true.
+Proof.
+  unfold wf_C31, prop_C31, run_C31. intros Hwf _. destruct (decode_input i) as [[mx chunks]|]; [|discriminate].
+  apply andb_true_iff in Hwf. destruct Hwf as [Hmx Hw]. apply Z.leb_le in Hmx.
+  pose proof (decoder_refines_rfc mx chunks Hmx Hw) as H. unfold observe.
+  destruct (dec_run huff_decode_spec (new_decoder mx) chunks []) as [[d fs] st]. destruct H as [Hnp H].
+  assert (st =? ST_PANIC = false) as -> by (unfold ST_PANIC in *; lia).
+  rewrite val_fields_roundtrip.
+  destruct (rfc_decode mx (concat chunks)) as [[t want]|].
+  - destruct H as [-> [-> [Hr [Hm [Hs _]]]]]. rewrite fields_eqb_refl, Hs, Hr.
+    change (tab_size (rev (ents (ddt d)))) with (tsum (rev (ents (ddt d)))). rewrite tsum_rev, rev_length.
+    unfold vnat. rewrite !Z.eqb_refl. reflexivity.
+  - apply negb_true_iff. lia.
+Qed.
+Definition ex_input31 : val := VL [VZ 4096; VL [VB [32; 63]; VB [33; 130; 64]; VB []; VB [1; 120; 129]; VB [7; 190]]].
+Lemma ex_input31_ok : wf_C31 ex_input31 = true /\ agree_C31 ex_input31 (run_C31 ex_input31) = true
+  /\ run_C31 ex_input31 = VL [VL [VL [VB [58;109;101;116;104;111;100]; VB [71;69;84]; VZ 0]; VL [VB [120]; VB [48]; VZ 0];
+                                   VL [VB [120]; VB [48]; VZ 0]]; VZ 0; VZ 34; VZ 64; VZ 1].
+Proof. vm_compute. repeat split; reflexivity. Qed.
